@@ -2173,7 +2173,10 @@ namespace adept {
     }
     bool is_column_contiguous() const {
       ADEPT_STATIC_ASSERT(Rank == 2, CANNOT_CHECK_COLUMN_CONTIGUOUS_IF_NOT_MATRIX);
-      return offset_[0] == 1;
+      // The separation of the columns must be usable as a BLAS leading
+      // dimension, so (as in is_row_contiguous) it must be at least
+      // the length of a column; in particular it may not be negative
+      return offset_[0] == 1 && offset_[1] >= dimensions_[0];
     }
 
   public:
